@@ -695,12 +695,16 @@ type StormPlan struct {
 	Poll    bool `json:"poll"`    // consumer polls with an ended context instead of blocking
 	Spin    int  `json:"spin"`    // producer: busy iterations between its last Send and Close, swept 0..Spin over the rounds
 	CloseBy int  `json:"closeby"` // 0: the producer closes; 1: a second goroutine closes once the producer is done
+	// EarlyClose: the consumer does not read at all: it closes its end (after the swept delay) while the producer
+	// is in its first Send - which returns
+	EarlyClose bool `json:"early_close,omitempty"`
 }
 
 func genStorm(t *rapid.T) StormPlan {
-	return StormPlan{Buf: rapid.SampledFrom([]int{1, 1, 2, 4, 0}).Draw(t, "buf"), N: rapid.IntRange(1, 4).Draw(t, "n"),
+	return StormPlan{Buf: rapid.SampledFrom([]int{1, 1, 2, 4, 0}).Draw(t, "buf"), N: rapid.IntRange(0, 4).Draw(t, "n"), // (0: an empty stream, closed while the consumer starts to wait)
 		Rounds: rapid.IntRange(500, 3000).Draw(t, "rounds"), Poll: rapid.Bool().Draw(t, "poll"),
-		Spin: rapid.SampledFrom([]int{0, 0, 20, 200}).Draw(t, "spin"), CloseBy: rapid.IntRange(0, 1).Draw(t, "closeby")}
+		Spin: rapid.SampledFrom([]int{0, 0, 20, 200}).Draw(t, "spin"), CloseBy: rapid.IntRange(0, 1).Draw(t, "closeby"),
+		EarlyClose: rapid.IntRange(0, 5).Draw(t, "earlyclose") == 0}
 }
 
 var spinSink atomic.Int64
@@ -735,6 +739,18 @@ func runStorm(p StormPlan) (vk.Outcome, error) {
 		if p.CloseBy == 1 {
 			go func() { <-produced; sender.Close(nil) }()
 		}
+		if p.EarlyClose {
+			for k := 0; k < spin; k++ {
+				spinSink.Add(1)
+			}
+			receiver.Close()
+			select {
+			case <-produced:
+			case <-vk.After(10 * time.Second):
+				return out, vk.Violf("send-stuck", "round %d: the receiver closed its end of a fresh pipe (buffer %d) while the producer was sending; 10 s later the producer's Sends have not all returned", round, p.Buf)
+			}
+			continue
+		}
 		next, polls := 0, 0
 		var verr error
 		for {
@@ -742,7 +758,25 @@ func runStorm(p StormPlan) (vk.Outcome, error) {
 			if p.Poll {
 				ctx = ended
 			}
-			v, err := receiver.Next(ctx)
+			var v int
+			var err error
+			if p.Poll {
+				v, err = receiver.Next(ctx)
+			} else {
+				// (a blocking call gets a liveness limit: a consumer that is never told anything is a verdict)
+				type res struct {
+					v   int
+					err error
+				}
+				rc := make(chan res, 1)
+				go func() { v, err := receiver.Next(ctx); rc <- res{v, err} }()
+				select {
+				case r := <-rc:
+					v, err = r.v, r.err
+				case <-vk.After(10 * time.Second):
+					return out, vk.Violf("next-stuck", "round %d: a fresh pipe (buffer %d), %d values sent and the sender closed around the time the consumer began to wait: 10 s later Next has not returned", round, p.Buf, p.N)
+				}
+			}
 			if err == nil {
 				if v != next {
 					verr = vk.Violf("fifo", "round %d: received %d, expected %d", round, v, next)
